@@ -92,7 +92,7 @@ template <class A> static vj::value with_leaf(const vj::value& c) {
     size_t n = 1; for (auto x : shp) n *= x; for (size_t p = 0; p < n; p++) a.data()[p] = (long)p + 1;
     std::vector<step_t> st;
     for (size_t i = 0; i < c["prog"].size(); i++) { step_t s; s.op = c["prog"][i]["op"].as_str(); s.a = (int)c["prog"][i]["variant"].as_int(); st.push_back(s); }
-    return schain<0, meta::is_clipped_index_array_v<typename A::shape_type>>(st, 0, a, [&](const auto& v) { if constexpr (meta::is_view_v<meta::remove_cvref_t<decltype(v)>>) return report(v); else return crash_res("driver:empty program"); });
+    return schain<0, meta::is_clipped_index_array_v<typename A::shape_type> && !meta::is_tuple_v<typename A::shape_type>>(st, 0, a, [&](const auto& v) { if constexpr (meta::is_view_v<meta::remove_cvref_t<decltype(v)>>) return report(v); else return crash_res("driver:empty program"); });
 }
 
 static vj::value handle(const vj::value& c) {
@@ -104,6 +104,7 @@ static vj::value handle(const vj::value& c) {
     if (kind == "fixdim2") return with_leaf<na::ndarray_t<std::vector<L>, std::array<S, 2>>>(c);
     if (kind == "bounddim3") return with_leaf<na::ndarray_t<std::vector<L>, nmtools_static_vector<S, 3>>>(c);
     if (kind == "clip33") return with_leaf<na::ndarray_t<nmtools_static_vector<L, 9>, nmtools_array<nm::clipped_size_t<3>, 2>>>(c);
+    if (kind == "clip62t") return with_leaf<na::ndarray_t<nmtools_static_vector<L, 12>, nmtools_tuple<nm::clipped_size_t<6>, nm::clipped_size_t<2>>>>(c);
     if (kind == "boundsize6") return with_leaf<na::ndarray_t<nmtools_static_vector<L, 6>, std::array<S, 2>>>(c);
     return crash_res("kind");
 }
